@@ -74,8 +74,17 @@ def bech32Encode (hrp : List Char) (data : List Nat) : Res (List Char) := do
 
 /-! ### bech32_decode -/
 
-/-- `str.lower()` / `str.upper()`; only ever applied to strings whose characters are all in 33..126
-    (the `or` short-circuits), where Python's Unicode case mapping is the ASCII one -/
+/-- `str.lower()` / `str.upper()`.
+    Which code points can matter: `bech32_decode` evaluates `any(ord(x) < 33 or ord(x) > 126 for x in bech)`
+    on the ORIGINAL string first and `or` short-circuits, so `.lower()` / `.upper()` are never applied to a
+    string containing a code point outside 33..126 — in particular never to U+212A KELVIN
+    (`.lower() == 'k'`, its own upper case), U+017F LONG S (`.upper() == 'S'`), U+0130 (`.lower()` is two
+    code points), U+0131, ß, the ligatures, fullwidth forms or anything else ≥ 128.  On 33..126 Python's
+    Unicode case mapping is the ASCII one.  Hence `Char.toLower` / `Char.toUpper` (ASCII letters only, identity
+    elsewhere) mirror the code exactly as far as the code applies them, and no table of special code points
+    is needed.  The harness feeds all of the above at every position (`special-*` tags) to check that the
+    implementation does refuse them before any case mapping.  `decode`'s `hrp` argument is compared as given
+    (no case mapping); `encode`'s only goes through `ord`. -/
 def lower (s : List Char) : List Char := s.map Char.toLower
 def upper (s : List Char) : List Char := s.map Char.toUpper
 
